@@ -54,6 +54,8 @@ type C07Case struct {
 	// Keep: every frame is received into its own Packet and all of them are looked at again after the
 	// last one (and after further traffic through the package's pools)
 	Keep bool `json:"keep,omitempty"`
+	// EOFData (via_conn): the last bytes arrive together with io.EOF
+	EOFData bool `json:"eof_with_data,omitempty"`
 }
 
 // c07Recheck verifies retained packets after unrelated traffic went through the shared pools.
@@ -186,6 +188,9 @@ func errClass(err error) string {
 func c07CheckConn(c C07Case) *pbt.Violation {
 	a, b := iox.NewDuplex()
 	b.MaxChunk = c.Chunk
+	if c.EOFData {
+		b.EOFWithData()
+	}
 	ca, cb := mcnet.WrapConn(a), mcnet.WrapConn(b)
 	ca.SetThreshold(c.Threshold)
 	cb.SetThreshold(c.Threshold)
@@ -413,6 +418,7 @@ func genC07(t *rapid.T) C07Case {
 	}
 	c.ViaConn = rapid.IntRange(0, 3).Draw(t, "conn") == 0
 	c.Keep = rapid.Bool().Draw(t, "keep")
+	c.EOFData = c.ViaConn && rapid.Bool().Draw(t, "eofdata")
 	if c.ViaConn {
 		c.Chunk = rapid.SampledFrom([]int{0, 1, 3, 7, 4096}).Draw(t, "chunk")
 	}
